@@ -72,6 +72,11 @@ def cases(tier, seed):
                 d.update({"fields": ["temp", "density", "Z"], "layout": lay, "payload": "coded" if (gi + li) % 2 == 0 else "hostile",
                           "seed": seed})
                 out.append({"desc": d, "schedules": li == 0 and gi == 0, "w": nlev})
+    # level directories named otherwise than Level_k
+    d = dict(scope.named_meshes(2)[2])
+    d.update(geos[2])
+    d.update({"fields": ["temp", "density", "Z"], "layout": [None, scope.layouts(3, 'idrev')[-1], None], "payload": "coded", "seed": seed, "levelprefix": "Lev_"})
+    out.append({"desc": d, "schedules": False, "w": 4})
     # field names that differ only by letter case
     d = dict(scope.named_meshes(2)[1])
     d.update(geos[1])
